@@ -5,7 +5,7 @@ from hypothesis import strategies as st
 from eqsig import sdof
 
 from pbt import core, gen
-from pbt.core import clause
+from pbt.core import clause, enum_clause
 from pbt.ref import sdof as ref
 
 PROPERTY = "C02"
@@ -334,3 +334,84 @@ def refine(case, ctx):
     sd2 = np.asarray(ctx.lib(sdof.pseudo_response_spectra, fine, dt / m, P, xi)[0])
     ctx.check(bool(np.all(sd2[s:] >= sd1[s:] - (tol * su + bu) - core.TINY)),
               "S_d decreased under refinement x%d: %r -> %r" % (m, sd1.tolist(), sd2.tolist()))
+
+
+# ---------------------------------------------------------------------------
+# many periods: a single transposition inside a long period list
+
+
+@st.composite
+def _many_cases(draw):
+    npd = draw(st.integers(1001, 1600))
+    return {"a": draw(gen.record_specs(min_n=2, max_n=40, small_max=40, allow_zero_runs=False)),
+            "dt": draw(gen.dts(1e-3, 1.0)), "xi": draw(st.sampled_from([0.0, 0.05, 0.3])), "np": npd,
+            "lo": draw(gen.log_uniform(0.5, 20.0)), "span": draw(gen.log_uniform(5.0, 500.0)),
+            "i": draw(st.integers(3, npd - 4)), "j": draw(st.integers(3, npd - 4)), "lead0": draw(st.booleans())}
+
+
+@clause(CLAUSES, "many-periods", _many_cases(), quick=40, thorough=120,
+        rule="1001-1600 log-spaced periods (more than NumPy's summarisation threshold), short records; the same list with two interior "
+             "periods swapped, called in the same process; non-trivial = the two swapped periods differ and the record is non-zero",
+        oracle="metamorphic: every period's series rows and spectra equal those of the unswapped call (1e-10 of the robust scale)",
+        min_nontrivial=0.5)
+def many_periods(case, ctx):
+    a = gen.build(case["a"])
+    dt, xi = case["dt"], case["xi"]
+    npd = case["np"]
+    T = case["lo"] * dt * np.logspace(0, np.log10(case["span"]), npd)
+    i, j = case["i"], case["j"]
+    ctx.nt(bool(i != j and np.any(a)))
+    ctx.cls("lead0" if case["lead0"] else None)
+    lead = [0.0] if case["lead0"] else []
+    s = len(lead)
+    P1 = np.array(lead + list(T))
+    T2 = T.copy()
+    T2[[i, j]] = T2[[j, i]]
+    P2 = np.array(lead + list(T2))
+    idx = np.arange(npd)
+    idx[[i, j]] = idx[[j, i]]
+    r1 = ctx.lib(sdof.response_series, a, dt, P1, xi)
+    p1 = ctx.lib(sdof.pseudo_response_spectra, a, dt, P1, xi)
+    r2 = ctx.lib(sdof.response_series, a, dt, P2, xi)
+    p2 = ctx.lib(sdof.pseudo_response_spectra, a, dt, P2, xi)
+    su, sv, sa = ref.lib_scales(a, dt, T, xi, r1[0][s:], r1[1][s:])
+    for k, (name, sc) in enumerate((("displacement", su), ("velocity", sv), ("acceleration", sa))):
+        ctx.close(np.asarray(r2[k])[s:], np.asarray(r1[k])[s:][idx], 1e-10 * sc[idx][:, None] + 0 * np.asarray(r2[k])[s:],
+                  "%s rows after swapping periods %d and %d of %d" % (name, i, j, npd))
+    w = 2 * np.pi / T
+    amax = float(np.max(np.abs(a)))
+    for k, (name, sc) in enumerate((("S_d", su), ("S_v", w * su), ("S_a", w ** 2 * su + amax))):
+        ctx.close(np.asarray(p2[k])[s:], np.asarray(p1[k])[s:][idx], 1e-10 * sc[idx], "pseudo %s after swapping two periods" % name)
+
+
+# ---------------------------------------------------------------------------
+# very large (periods x samples) products: thorough tier only (about 25 s per call)
+
+
+def _huge_enum(tier, shard, nshards):
+    if tier != "thorough":
+        return
+    cases = [{"n": 170000, "np": 101, "cut": 60, "seed": 5}, {"n": 70000, "np": 259, "cut": 100, "seed": 6}]
+    for k, c in enumerate(cases):
+        if k % nshards == shard:
+            yield c
+
+
+@enum_clause(CLAUSES, "huge-batch", _huge_enum,
+             rule="thorough tier only: two fixed very large problems (170 000 samples x 101 periods, 70 000 x 259: more than 2^24 response "
+                  "values per series), whole list vs two batches; the quick tier does not reach this regime",
+             oracle="metamorphic: pseudo spectra of the whole list equal those of the two batches (1e-10 relative)",
+             exhaustive_note="two fixed cases (not an exhaustive space); listed as an enumeration because nothing is drawn", quick_shards=1,
+             thorough_only=True)
+def huge_batch(case, ctx):
+    a = gen.build({"k": "quake", "n": case["n"], "seed": case["seed"], "amp": 0})
+    dt = 0.005
+    T = np.logspace(np.log10(0.05), np.log10(5.0), case["np"])
+    ctx.nt(True)
+    whole = [np.asarray(x) for x in ctx.lib(sdof.pseudo_response_spectra, a, dt, T, 0.05)]
+    c = case["cut"]
+    lo = [np.asarray(x) for x in ctx.lib(sdof.pseudo_response_spectra, a, dt, T[:c], 0.05)]
+    hi = [np.asarray(x) for x in ctx.lib(sdof.pseudo_response_spectra, a, dt, T[c:], 0.05)]
+    for k, name in enumerate(("S_d", "S_v", "S_a")):
+        both = np.concatenate([lo[k], hi[k]])
+        ctx.close(whole[k], both, 1e-10 * np.abs(both) + core.TINY, "pseudo %s: whole list of %d periods vs two batches (%d samples)" % (name, case["np"], case["n"]))
